@@ -136,6 +136,7 @@ var templateProps = map[string][]string{
 	"TestGovcReplayAuthorizerOptions": {"C11"},
 	"TestGovcReplayBlockScoping":      {"C03", "C04"},
 	"TestGovcReplayPolicyOrder":       {"C04"},
+	"TestGovcReplayLimitIdentity":     {"C11"},
 	"TestGovcReplayEvaluateUnbound":   {"C06", "C10"},
 	"TestGovcReplayEntropy":           {"C20"},
 	"TestGovcReplayExprCorpus":        {"C14"},
